@@ -110,7 +110,18 @@ def range_rules(name, cfg):
             if sum(vols) <= 0:
                 return None  # formula undefined on zero total volume
             if not in_range(v[0], -1.0, 1.0, t, L):
-                return "step %d: CMF value %r is outside its documented interval [-1, 1] (window volume %r)" % (t, v[0], sum(vols))
+                msg = "step %d: CMF value %r is outside its documented interval [-1, 1] (window volume %r)" % (t, v[0], sum(vols))
+                if v[0] == v[0]:
+                    # quotient of two running sums (money-flow volume / volume): is the excess explained by the rounding
+                    # residue that earlier, larger volumes left in them?
+                    D = math.fsum(vols)
+                    A = K * U * (t + n + 8) * max(abs(h[4]) for h in hist) * n
+                    ex = abs(v[0]) - 1.0
+                    if D <= 8 * A or ex * D <= 8 * A * (1 + ex):
+                        msg += " [residue class: excess %.3g x window scale %.3g is within the rounding allowance %.3g of the history]" % (ex, D, A)
+                    else:
+                        msg += " [NOT explained by rounding residue: excess %.3g x window scale %.3g > allowance %.3g]" % (ex, D, A)
+                return msg
             return None
         return f
     if name == "TrueStrengthIndex":
@@ -216,7 +227,9 @@ class RCase(im.IMCase):
             M = max(M, max(abs(x) for x in c[:4]))
             v = [bits2f(x) for x in vals]
             if self.name in FINITE_ALWAYS and not all(math.isfinite(x) for x in v):
-                return ["step %d: value %r is not finite although every input is a valid positive candle" % (t, v)]
+                vid = sorted(set(val for key, val in self.sets if val.startswith("vidya-")))
+                return ["step %d: value %r is not finite although every input is a valid positive candle%s" % (
+                    t, v, (" [configured with the average %s]" % ", ".join(vid)) if vid else "")]
             if rule is not None:
                 m = rule(t, v, c, hist, M)
                 if m:
@@ -370,6 +383,10 @@ def run(ctx):
                        [fl(3.0, 1e4), fl(0.001, 0.1), fl(2.5, 7.0), fl(1e8, 0.1), fl(1e8, 0.1), fl(1e8, 1.0)], "known-finding-witness"))
     cases.append(RCase(tabs["RelativeStrengthIndex"], [("ma", "wma-3")], fl(100.0, 1.0),
                        [fl(0.001, 1.0), fl(7.0, 1.0), fl(7.0, 1.0), fl(7.0, 1.0), fl(7.0, 1.0)], "known-finding-witness"))
+    low = lambda v: (2.0, 2.0, 1.0, 1.0, v)   # closes on its low: CLV = -1 exactly
+    cases.append(RCase(tabs["ChaikinMoneyFlow"], [("size", "2")], low(1e8), [low(0.3), low(0.1)], "known-finding-witness"))
+    cases.append(RCase(tabs["RelativeStrengthIndex"], [("ma", "vidya-3")], fl(100.0, 1.0),
+                       [fl(3.3, 1.0), fl(2.5, 1.0)] + [fl(0.1, 1.0)] * 7, "known-finding-witness"))
     ctx.run_suite("indicator-ranges", cases, HEADER, per_shard=3, theorem="Properties/C12.v")
     mc = method_cases(ctx, ctx.tier)
     ctx.run_suite("method-ranges", mc, numeric_header(), per_shard=8, theorem="Properties/C12.v")
